@@ -10,7 +10,7 @@ import coqlit as L
 ID = "C08"
 COQ_PROPERTY_FILE = "Properties/C08.v"
 COQ_DEPS = ["Common/ListX.v", "Common/ObsHash.v", "Generated/Tables.v", "Model/LegacyGrid.v", "Proofs/LegacyGridProofs.v",
-            "Proofs/LegacyGridSim.v"]
+            "Proofs/LegacyGridSim.v", "Proofs/LegacyGridRefine.v"]
 COQ_IMPORTS = "From Mesa Require Import Model.LegacyGrid."
 COQ_CASE_TYPE = "case"
 COQ_RUN = "run_case"
@@ -612,6 +612,72 @@ def run_impl(case):
                 fail(f"C08/{name}/exists_empty_cells", i, f"exists_empty_cells() = {bool(res[0])}, cells without agents: {truly_empty}")
             if kind == "is_empty" and res != [1 if (op[1], op[2]) in truly_empty else 0]:
                 fail(f"C08/{name}/is_cell_empty", i, f"is_cell_empty({(op[1], op[2])}) = {bool(res[0])}, cell holds {raw_after[(op[1], op[2])]}")
+    # ---- C18 fault sweep from the final state: every rejecting call applicable there must raise and leave
+    #      the observable state as it was (the sweep is not part of the history handed to the model)
+    def sweep(site, call, why, accepted_key=None):
+        b = snapshot()
+        try:
+            with warnings.catch_warnings():
+                warnings.simplefilter("ignore")
+                call()
+            raised = None
+        except Exception as e:  # noqa: BLE001
+            raised = e
+        a = snapshot()
+        if raised is None:
+            if accepted_key:
+                fail(accepted_key, len(case["ops"]), f"fault sweep after the history: {why} was accepted")
+        elif canon(a) != canon(b):
+            failures.append({"key": f"C18/legacy-grid/{site}", "op": len(case["ops"]),
+                             "what": f"{name}({w}x{h}, torus={torus}): fault sweep after the history: {why} raised "
+                                     f"{type(raised).__name__}({raised}) but changed the state: pos before {b['pos']}, after {a['pos']}"})
+        return raised is not None and canon(a) == canon(b)
+
+    if case.get("sweep", True) and not failures:
+        fin = snapshot()
+        placed_ids = [aid for aid in sorted(agents) if fin["pos"][aid] is not None]
+        unplaced_ids = [aid for aid in sorted(agents) if fin["pos"][aid] is None]
+        okay = True
+        for aid in placed_ids:
+            a = agents[aid]
+            if not okay:
+                break
+            if not torus:
+                for t in ((-1, 0), (w, h - 1), (0, h), (w + 3, -2)):
+                    okay = okay and sweep("move_agent", lambda a=a, t=t: g.move_agent(a, t), f"move_agent(agent {aid}, {t}) outside the bounded grid",
+                                          f"C08/{name}/move_agent/out-of-bounds-accepted")
+                okay = okay and sweep("move_agent_to_one_of", lambda a=a: g.move_agent_to_one_of(a, [(w, 0)], selection="closest"),
+                                      f"move_agent_to_one_of(agent {aid}, [({w}, 0)], 'closest') outside the bounded grid",
+                                      f"C08/{name}/move_agent/out-of-bounds-accepted")
+            if single:
+                for bid in placed_ids:
+                    if bid != aid:
+                        tb = fin["pos"][bid]
+                        okay = okay and sweep("move_agent", lambda a=a, tb=tb: g.move_agent(a, tb), f"move_agent(agent {aid}, {tb}) onto agent {bid}",
+                                              f"C08/{name}/move_agent/occupied-cell-accepted")
+                        okay = okay and sweep("move_agent_to_one_of", lambda a=a, tb=tb: g.move_agent_to_one_of(a, [tb]),
+                                              f"move_agent_to_one_of(agent {aid}, [{tb}]) onto agent {bid}",
+                                              f"C08/{name}/move_agent_to_one_of/occupied-cell-accepted")
+                        break
+            okay = okay and sweep("move_agent_to_one_of", lambda a=a: g.move_agent_to_one_of(a, [(0, 0)], selection="nearest"),
+                                  f"move_agent_to_one_of(agent {aid}, [(0, 0)], selection='nearest')")
+            okay = okay and sweep("move_agent_to_one_of", lambda a=a: g.move_agent_to_one_of(a, [], handle_empty="error"),
+                                  f"move_agent_to_one_of(agent {aid}, [], handle_empty='error')")
+            for uid in unplaced_ids[:1]:
+                okay = okay and sweep("swap_pos", lambda a=a, u=agents[uid]: g.swap_pos(a, u), f"swap_pos(agent {aid}, unplaced agent {uid})",
+                                      f"C08/{name}/swap_pos/unplaced-agent-accepted")
+                okay = okay and sweep("swap_pos", lambda a=a, u=agents[uid]: g.swap_pos(u, a), f"swap_pos(unplaced agent {uid}, agent {aid})",
+                                      f"C08/{name}/swap_pos/unplaced-agent-accepted")
+        if okay and single:
+            for uid in unplaced_ids[:1]:
+                for bid in placed_ids[:2]:
+                    tb = fin["pos"][bid]
+                    okay = okay and sweep("place_agent", lambda u=agents[uid], tb=tb: g.place_agent(u, tb), f"place_agent(unplaced agent {uid}, {tb}) onto agent {bid}",
+                                          f"C08/{name}/place_agent/occupied-cell-accepted")
+        if okay and placed_ids and all(fin["raw"][c] for c in cells):
+            aid = placed_ids[0]
+            sweep("move_to_empty", lambda: g.move_to_empty(agents[aid]), f"move_to_empty(agent {aid}) on a grid without an empty cell",
+                  f"C08/{name}/move_to_empty/no-empty-cell-accepted")
     return {"obs": obs, "failures": failures, "ops_for_model": ops_for_model}
 
 
